@@ -103,6 +103,12 @@ CHECKS.update({
             "Reads of dropped ranges by transactions overlapping a drop are not compared (documented as unsafe). Crash images inside a drop are taken by the C08 machinery only in its own scenario, not here.", "3/C29"),
 })
 
+CHECKS.update({
+    "C37": ("exploration", "deterministic simulation on an InMemory DB + differential run against the on-disk DB + persistence-event tracker",
+            "Generated histories (transactions, batches, and in half of the cases real compactors and drops) run on an InMemory database under the same model oracles, with the mmap/fd/dir event tracker installed (any event or file is a violation); the first client's script is additionally run sequentially on disk and in memory and every result line must be identical.",
+            "Values are kept within the in-memory limit (the value threshold), as the property states. The differential part uses one client so that results do not depend on the schedule.", "3/C37"),
+})
+
 PENDING = {}  # property -> reason while not yet implemented
 
 def main():
